@@ -70,16 +70,15 @@ Definition ident_or_nl (s : string) : Prop :=
   ident_strict s = true \/ exists s', s = (s' ++ String (Ascii.ascii_of_nat 10) EmptyString)%string /\ ident_strict s' = true.
 
 (* ---- strictness.  Every shape below exists in two versions selected by [strict : bool]:
-   [true] is the documentation; [false] is the weaker statement that the unchanged schemas are
-   proved to enforce.  The differences (each one is a `_refuted` theorem in Props/C09.v):
-     S18  integer-valued properties: a float with an integral value passes for an integer
-     S14  static array: `length` is not required
-     S4   dynamic array: nothing but the class name is constrained
-     S19  enumeration: `mappings` may be null
-     S20  structure member names: a name that is not an identifier is accepted and its member
-          object is then unconstrained
-     S21  trace object: unknown properties are accepted
-     S22  names: an identifier followed by one newline is accepted *)
+   [true] is the documentation; [false] is the weaker statement that the current schemas are
+   proved to enforce.  The remaining differences (each one is a `_refuted` theorem in
+   Props/C09.v):
+     S19  integer-valued properties: a float with an integral value passes for an integer
+     enumeration: `mappings` may be null
+     names: an identifier (or UUID) followed by one newline is accepted
+   (S4 dynamic array, S14 static array length, structure member names and the unknown
+   properties of the trace object were differences of this kind until they were repaired in
+   /repo; the corresponding constraints are now part of both versions.) *)
 Definition intP (strict : bool) : Z -> option Z -> json -> Prop :=
   if strict then int_doc else int_val.
 Definition identP (strict : bool) (s : string) : Prop :=
@@ -131,9 +130,7 @@ Definition string_ft_doc (j : json) : Prop :=
 Definition member_obj (FT : json -> Prop) (v : json) : Prop :=
   exists mo, v = JObj mo /\ required mo "field-type" FT /\ only_keys mo ["field-type"].
 Definition member_doc (strict : bool) (FT : json -> Prop) (x : json) : Prop :=
-  exists name v, x = JObj [(name, v)] /\
-    (strict = true -> ident_strict name = true /\ member_obj FT v) /\
-    (strict = false -> match_ident name = true -> ident_or_nl name /\ member_obj FT v).
+  exists name v, x = JObj [(name, v)] /\ identP strict name /\ member_obj FT v.
 Definition members_doc (strict : bool) (FT : json -> Prop) (x : json) : Prop :=
   exists l, x = JArr l /\ forall e, In e l -> member_doc strict FT e.
 
@@ -148,14 +145,14 @@ Definition static_array_ft_doc (strict : bool) (FT : json -> Prop) (j : json) : 
   exists m, j = JObj m /\
     required m "class" (str_in sarray_names) /\
     required m "element-field-type" FT /\
-    (if strict then required m "length" (intP strict 0%Z None)
-     else present m "length" (intP strict 0%Z None)) /\
+    required m "length" (intP strict 0%Z None) /\
     only_keys m ["class"; "element-field-type"; "length"].
 
 Definition dynamic_array_ft_doc (strict : bool) (FT : json -> Prop) (j : json) : Prop :=
   exists m, j = JObj m /\
     required m "class" (str_in darray_names) /\
-    (strict = true -> required m "element-field-type" FT /\ only_keys m ["class"; "element-field-type"]).
+    required m "element-field-type" FT /\
+    only_keys m ["class"; "element-field-type"].
 
 (* the whole field type tree *)
 Inductive ft_doc (strict : bool) : json -> Prop :=
@@ -277,7 +274,7 @@ Definition trace_doc (strict : bool) (j : json) : Prop :=
   exists m, j = JObj m /\
     required m "type" (trace_type_doc strict) /\
     optional m "environment" (env_doc strict) /\
-    (if strict then only_keys m ["type"; "environment"] else True).
+    only_keys m ["type"; "environment"].
 
 Definition prefix_doc (strict : bool) (x : json) : Prop :=
   name_doc strict x \/
@@ -327,3 +324,17 @@ Definition cfg_packet_features (cfg : json) : list obj :=
            (jvalues (obind (obind (jget "trace" cfg) (jget "type")) (jget "data-stream-types"))).
 Definition doc_total_ge_content (cfg : json) : Prop :=
   forall p, In p (cfg_packet_features cfg) -> total_ge_content p.
+
+(* a document without floats and without a null `mappings` property: the two remaining ways in
+   which a schema-valid field type differs from a documented one and that matter to
+   `_create_config` *)
+Definition null_mappings (kx : string * json) : bool :=
+  String.eqb (fst kx) "mappings" && match snd kx with JNull => true | _ => false end.
+Fixpoint clean (j : json) : bool :=
+  match j with
+  | JFloat _ => false
+  | JArr l => (fix go (l : list json) : bool := match l with [] => true | x :: l => clean x && go l end) l
+  | JObj m => (fix go (m : list (string * json)) : bool :=
+                 match m with [] => true | kx :: m => negb (null_mappings kx) && clean (snd kx) && go m end) m
+  | _ => true
+  end.
